@@ -345,6 +345,7 @@ func Run(p *Property, o Options) int {
 	// theorems are discovered from the property's own Lean files (Props/Cxx.lean holds
 	// property theorems only); names listed explicitly in the registration are required.
 	p.Theorems = mergeNames(p.Theorems, discoverTheorems(p.PropsModule))
+	p.TieTheorems = mergeNames(p.TieTheorems, discoverTheorems(p.TieModule))
 	root := VerifRoot()
 	var broken []Broken
 	var notes []string
